@@ -285,27 +285,47 @@ theorem auntsRev_sizes {H : Bytes → Bytes} {sz : Nat} (hsz : ∀ x, (H x).leng
         · rw [h]; exact tree_hash_len hsz l
         · exact ihr ds a h
 
-theorem valueOp_ok_verify {H : Bytes → Bytes} {key value r : Bytes} {p : SimpleProof} (hr : r ≠ [])
-    (h : valueOpVerify H key value (some r) p = .ok ()) :
-    p.verify H (some r) (mapLeaf H key value) = .ok () := by
-  unfold valueOpVerify at h
-  split at h
-  · cases h
-  · split at h
-    · cases h
-    · rename_i h1 h2
-      simp only [Bool.not_eq_true, Bool.not_eq_false] at h1 h2
-      have hc : p.computeRootHash H = some r := by
-        unfold bytesEqual at h2
-        cases hcr : p.computeRootHash H with
-        | none => rw [hcr] at h2; simp at h2; exact absurd h2.symm (by simpa using hr)
-        | some x => rw [hcr] at h2; simp at h2; rw [h2]
-      obtain ⟨a, b, _⟩ := computeRootHash_some hc
-      rw [verify_ok_iff]
-      refine ⟨by omega, a, ?_, ?_, ?_⟩
-      · unfold bytesEqual at h1 ⊢; have := eq_of_beq h1; rw [this]; exact beq_self_eq_true _
-      · rw [hc]; simp
-      · rw [hc]; exact bytesEqual_refl _
+theorem valueOp_ok_iff (H : Bytes → Bytes) (key value : Bytes) (root : Option Bytes) (p : SimpleProof) :
+    valueOpVerify H key value root p = .ok () ↔
+      bytesEqual (some (leafHash H (mapLeaf H key value))) p.leafHash = true ∧
+      ∃ c, p.computeRootHash H = some c ∧ bytesEqual root (some c) = true := by
+  unfold valueOpVerify
+  split
+  · constructor
+    · intro h; cases h
+    · intro h; simp_all
+  · cases hc : p.computeRootHash H with
+    | none => simp
+    | some c =>
+      simp only []
+      split
+      · constructor
+        · intro h; cases h
+        · intro h; simp_all
+      · constructor
+        · intro _; exact ⟨by simp_all, c, rfl, by simp_all⟩
+        · intro _; rfl
+
+theorem bytesEqual_symm {a b : Option Bytes} (h : bytesEqual a b = true) : bytesEqual b a = true := by
+  unfold bytesEqual at h ⊢; have := eq_of_beq h; rw [this]; exact beq_self_eq_true _
+
+/-- what `SimpleValueOp` accepts, `Verify` accepts for the KVPair leaf (any root) -/
+theorem valueOp_ok_verify {H : Bytes → Bytes} {key value : Bytes} {root : Option Bytes} {p : SimpleProof}
+    (h : valueOpVerify H key value root p = .ok ()) :
+    p.verify H root (mapLeaf H key value) = .ok () := by
+  obtain ⟨h1, c, hc, h2⟩ := (valueOp_ok_iff H key value root p).1 h
+  obtain ⟨a, b, _⟩ := computeRootHash_some hc
+  rw [verify_ok_iff]
+  refine ⟨by omega, a, bytesEqual_symm h1, by rw [hc]; simp, ?_⟩
+  rw [hc]; exact bytesEqual_symm h2
+
+/-- the pre-4d9045b816 `SimpleValueOp.Run` + root compare (nil computed root passed on), kept
+only to state what the fix removed -/
+def valueOpVerifyOld (H : Bytes → Bytes) (key value : Bytes) (root : Option Bytes) (p : SimpleProof) :
+    Except ValueOpErr Unit :=
+  if ¬ bytesEqual (some (leafHash H (mapLeaf H key value))) p.leafHash then .error .leafHash
+  else if ¬ bytesEqual root (p.computeRootHash H) then .error .root
+  else .ok ()
 
 theorem getSplitPoint_7 : getSplitPoint 7 = 4 := getSplitPoint_eq (e := 2) (by decide) (by decide)
 theorem getSplitPoint_5 : getSplitPoint 5 = 4 := getSplitPoint_eq (e := 2) (by decide) (by decide)
